@@ -167,6 +167,16 @@ func c19(p *an.Prog, r *an.R, tier string) {
 						nv = x
 					case *ssa.Phi:
 						nv = x
+					case *ssa.Store:
+						// spilled local (captured by a closure): its loads are the same slice
+						if al, ok := x.Addr.(*ssa.Alloc); ok && x.Val == v {
+							for _, r2 := range *al.Referrers() {
+								if u, ok := r2.(*ssa.UnOp); ok && !shared[u] {
+									shared[u] = true
+									changed = true
+								}
+							}
+						}
 					}
 					if nv != nil && !shared[nv] {
 						shared[nv] = true
